@@ -1617,15 +1617,17 @@ func runC16(args []string) {
 		})
 	}
 	// large trees (the parallel level construction starts at 512 nodes per level)
-	bigNs := [][]int{{512, 513, 600}}
+	// ... and leaf counts above 4096 whose padded size needs every step of the bit-smearing "next power of two"
+	// (4097 = 2^12 + 1, 8194 = 2^13 + 2)
+	bigNs := [][]int{{512, 513, 600}, {4097}}
 	if thorough {
-		bigNs = [][]int{{511, 512, 513}, {600, 777}, {1000, 1023, 1024}, {1025, 1500}}
+		bigNs = [][]int{{511, 512, 513}, {600, 777}, {1000, 1023, 1024}, {1025, 1500}, {4097}, {8194}}
 	}
 	for f, ns := range bigNs {
 		ns := ns
 		Nb := 1024
-		if ns[len(ns)-1] > 1024 {
-			Nb = 2048
+		for Nb < ns[len(ns)-1] {
+			Nb *= 2
 		}
 		add(fmt.Sprintf("vortex_big_%d", f), func(name string) int {
 			v := c16NewVx(*out, name, Nb, ns, *seed, *tier)
